@@ -11,9 +11,9 @@ for d in seeded/C*/; do
   [ -f $d/meta.json ] || continue
   p=${s%%-*}
   if ! git -C "$R" diff --quiet; then echo "$s: repo dirty"; break; fi
-  git -C "$R" apply $d/patch.diff 2>/dev/null || { echo "$s: patch does not apply"; continue; }
+  git -C "$R" apply "$PWD/$d/patch.diff" 2>/dev/null || { echo "$s: patch does not apply"; continue; }
   v=$(./check $p quick 2>&1 | grep -E "^VIOLATION" | head -1)
-  git -C "$R" apply -R $d/patch.diff 2>/dev/null; git -C "$R" checkout -- . ; git -C "$R" clean -fdq -- .
+  git -C "$R" apply -R "$PWD/$d/patch.diff" 2>/dev/null; git -C "$R" checkout -- . ; git -C "$R" clean -fdq -- .
   if [ -z "$v" ]; then echo "$s: MISSED"; elif echo "$v" | grep -q "no-failing-input-found"; then echo "$s: no-failing-input-found"; else echo "$s: failing-input"; fi
 done
 cp -r $EVBAK/. evidence/; rm -rf $EVBAK
